@@ -14,7 +14,12 @@ Translates the name-validation code of src/desc.rs to Lean definitions over `Cha
     `charset_validator(zeroth)`; every later character: the body of the closure given to
     `chars.all`, e.g. `charset_validator(c) || c.is_ascii_digit()`) is recognised by pattern; the two
     expressions are translated with `charset_validator` as a parameter (`genFirstBody`, `genRestBody`)
-    and the control shape becomes `genIdentOk`;
+    and the control shape becomes `genIdentOk`. Three source shapes are recognised: two that scan
+    `input.chars()` (the `next().and_then(..).unwrap_or(false)` chain; a `match` on `chars.next()` with a
+    guard) and one that scans `input.bytes().map(char::from)` (`let Some(z) = it.next() else { return
+    false; }; FIRST(z) && it.all(|c| REST)`). WHAT the list handed to `genIdentOk` consists of is emitted
+    as the flag `identScansBytes`: `false` = the string's characters, `true` = the bytes of its UTF-8
+    encoding, each turned into the character U+0000..U+00FF of that value (`char::from(u8)`);
   * which predicate `is_valid_metric_name` / `is_valid_label_name` pass to `is_valid_ident`
     (`genMetricFirstOk`, `genMetricRestOk`, `genLabelFirstOk`, `genLabelRestOk`).
 
@@ -38,7 +43,7 @@ METHODS = {
 }
 
 # names the generated file defines itself / Lean keywords: a Rust function of that name is renamed
-RESERVED = {'genIdentOk', 'genFirstBody', 'genRestBody', 'genMetricFirstOk', 'genMetricRestOk',
+RESERVED = {'identScansBytes', 'genIdentOk', 'genFirstBody', 'genRestBody', 'genMetricFirstOk', 'genMetricRestOk',
             'genLabelFirstOk', 'genLabelRestOk', 'charsetsKnown', 'charsetsUnknown', 'def', 'fun', 'end',
             'at', 'from', 'have', 'show', 'open', 'namespace', 'theorem', 'instance', 'section', 'variable',
             'then', 'with', 'do', 'by', 'in', 'to', 'export', 'import', 'prefix', 'infix', 'notation',
@@ -206,8 +211,10 @@ class ExprParser:
         self.i += 1
         return k, v
 
-    def parse(self):
-        ty, e = self.p_or()
+    def parse(self, and_level=False):
+        # and_level: the expression is the left operand of a `&&`, so a top-level `||` may not occur in it
+        # (`a || b && rest` is `a || (b && rest)`): parsing stops before it and the leftover is refused
+        ty, e = self.p_and() if and_level else self.p_or()
         if self.i != len(self.t):
             raise Unknown('unexpected token `%s`' % self.peek()[1])
         if ty != 'bool':
@@ -312,9 +319,9 @@ class ExprParser:
         raise Unknown('unexpected token `%s`' % v)
 
 
-def translate_expr(text, var, callables):
+def translate_expr(text, var, callables, and_level=False):
     p = ExprParser(tokenize(text), var, callables)
-    e = p.parse()
+    e = p.parse(and_level)
     return e, p.calls
 
 
@@ -345,6 +352,15 @@ SHAPE_BODY_MATCH = re.compile(
     r'match (?P=it) \. next \( \) \{ '
     r'Some \( (?P<z2>%s) \) if (?P<cond>[^{}]*?) => (?:\{ )?(?P=it) \. all \( \| (?P<c>%s) \| (?P<rest>[^{}]*?) \)(?: \})? ,? ?'
     r'_ => false ,? ?\}$' % (IDENT, IDENT, IDENT, IDENT))
+# the scan over BYTES, each turned into a char (`char::from(u8)` = the scalar value U+0000..U+00FF):
+#   let mut it = input.bytes().map(char::from); let Some(z) = it.next() else { return false; };
+#   COND && it.all(|c| REST)
+# COND must be an `&&`-level expression in `z` (checked by the expression parser: a top-level `||` in it
+# would bind looser than the `&&` before `it.all`), REST is the whole closure body.
+SHAPE_BODY_BYTES = re.compile(
+    r'^let mut (?P<it>%s) = (?P<inp>%s) \. bytes \( \) \. map \( char :: from \) ; '
+    r'let Some \( (?P<z2>%s) \) = (?P=it) \. next \( \) else \{ return false ;? ?\} ; '
+    r'(?P<cond>[^{}]*?) && (?P=it) \. all \( \| (?P<c>%s) \| (?P<rest>[^{}]*) \)$' % (IDENT, IDENT, IDENT, IDENT))
 CALLER_HEADER = re.compile(r'^\( (?P<n>%s) : & str \) -> bool$' % IDENT)
 CALLER_BODY = re.compile(r'^(?P<f>%s) \( (?P<n>%s) , (?P<p>%s) \)$' % (IDENT, IDENT, IDENT))
 
@@ -435,13 +451,19 @@ def main(repo, out):
         mh = SHAPE_HEADER.match(join(tokenize(header)))
         if not mh:
             raise Unknown('signature of `%s` not recognised' % ident_fn)
-        mb = SHAPE_BODY.match(join(tokenize(body)))
+        body_toks = join(tokenize(body))
+        mb = SHAPE_BODY.match(body_toks)
         zname = None
+        scans_bytes = False
         if mb:
             zname = mb.group('z')
         else:
-            mb = SHAPE_BODY_MATCH.match(join(tokenize(body)))
+            mb = SHAPE_BODY_MATCH.match(body_toks)
             zname = '<match scrutinee>'
+        if not mb:
+            mb = SHAPE_BODY_BYTES.match(body_toks)
+            zname = '<let-else scrutinee>'
+            scans_bytes = bool(mb)
         if not mb:
             raise Unknown('body of `%s` does not have the recognised shape' % ident_fn)
         if mb.group('inp') != mh.group('inp'):
@@ -452,23 +474,43 @@ def main(repo, out):
             raise Unknown('`%s`: a binder shadows the validator or the iterator' % ident_fn)
         if val in preds:
             raise Unknown('`%s`: the parameter has the name of a function' % ident_fn)
-        first_e, calls1 = translate_expr(mb.group('cond'), mb.group('z2'), {val: 'charset_validator'})
+        first_e, calls1 = translate_expr(mb.group('cond'), mb.group('z2'), {val: 'charset_validator'},
+                                         and_level=scans_bytes)
         rest_e, calls2 = translate_expr(mb.group('rest'), mb.group('c'), {val: 'charset_validator'})
         shape_ok = True
+        if scans_bytes:
+            L += ['/-- what `is_valid_ident` scans: `%s.bytes().map(char::from)` - the BYTES of the UTF-8 encoding of the'
+                  % mh.group('inp'),
+                  '    input, each turned into the character U+0000..U+00FF of that value; `genIdentOk` below runs on that list -/',
+                  'def identScansBytes : Bool := true', '']
+        else:
+            L += ['/-- what `is_valid_ident` scans: `%s.chars()` - the characters (Unicode scalar values) of the input;'
+                  % mh.group('inp'),
+                  '    `genIdentOk` below runs on that list -/',
+                  'def identScansBytes : Bool := false', '']
         L += ['/-- first character of `is_valid_ident`: the condition `%s` (in `%s`), with the validator as a parameter -/'
               % (pretty(mb.group('cond')), mb.group('z2')),
               'def genFirstBody (charset_validator : Char → Bool) (c : Char) : Bool := %s' % first_e, '',
-              '/-- every later character of `is_valid_ident`: the closure `|%s| %s` given to `chars.all`, with the validator as a parameter -/'
-              % (mb.group('c'), pretty(mb.group('rest'))),
-              'def genRestBody (charset_validator : Char → Bool) (c : Char) : Bool := %s' % rest_e, '',
-              '/-- control shape of `is_valid_ident`: `chars.next()` is `None` (empty input) → `unwrap_or(false)`;',
-              '    otherwise the first character must pass `first` and `chars.all` runs `rest` over the remaining ones -/',
-              'def genIdentOk (first rest : Char → Bool) : List Char → Bool',
+              '/-- every later character of `is_valid_ident`: the closure `|%s| %s` given to `%s.all`, with the validator as a parameter -/'
+              % (mb.group('c'), pretty(mb.group('rest')), mb.group('it')),
+              'def genRestBody (charset_validator : Char → Bool) (c : Char) : Bool := %s' % rest_e, '']
+        if scans_bytes:
+            L += ['/-- control shape of `is_valid_ident`: `%s.next()` is `None` (empty input) → the `else { return false }` of the'
+                  % mb.group('it'),
+                  '    `let Some(..)`; otherwise the first element must pass `first`, `&&`, the iterator\'s `%s.all` runs the closure over the remaining ones -/'
+                  % mb.group('it')]
+        else:
+            L += ['/-- control shape of `is_valid_ident`: `%s.next()` is `None` (empty input) → `false`;' % mb.group('it'),
+                  '    otherwise the first character must pass `first` and `%s.all` runs `rest` over the remaining ones -/'
+                  % mb.group('it')]
+        L += ['def genIdentOk (first rest : Char → Bool) : List Char → Bool',
               '  | [] => false',
               '  | c :: r => first c && r.all rest', '']
     except Unknown as ex:
         problems.append(str(ex))
         L += ['/-- UNKNOWN (%s) -/' % comment(str(ex)),
+              'def identScansBytes : Bool := false', '',
+              '/-- UNKNOWN (%s) -/' % comment(str(ex)),
               'def genFirstBody (_charset_validator : Char → Bool) : Char → Bool := fun _ => false', '',
               '/-- UNKNOWN (%s) -/' % comment(str(ex)),
               'def genRestBody (_charset_validator : Char → Bool) : Char → Bool := fun _ => false', '',
